@@ -439,7 +439,7 @@ func TestCheck(t *testing.T) {
 	for _, p := range []struct {
 		name string
 		run  func(*testing.T, *engine.Check)
-	}{{"req", runReq}, {"resp", runResp}, {"tok", runTok}, {"tok-lib", runTokLib}, {"tok-hostile", runTokHostile}, {"doc", runDoc}, {"doc-http", runDocHTTP}, {"hostile", runHostile}, {"hostile-num", runHostileNum}} {
+	}{{"req", runReq}, {"resp", runResp}, {"tok", runTok}, {"tok-lib", runTokLib}, {"tok-hostile", runTokHostile}, {"doc", runDoc}, {"doc-http", runDocHTTP}, {"hostile", runHostile}, {"hostile-num", runHostileNum}, {"hostile-timing", runTiming}} {
 		if sel := os.Getenv("C09_PARTS"); sel != "" && !engine.Has(strings.ReplaceAll(sel, ",", " "), p.name) {
 			c.Cap("part " + p.name + " not selected (C09_PARTS, development only)")
 			continue
